@@ -73,10 +73,10 @@ class Location(object):
         if isinstance(file_path, str):
             self.file_path = file_path
         else:
-            try:
-                self.file_path = file_path.name
-            except AttributeError:
-                self.file_path = "<io>"
+            # Streams without a usable name, for example temporary files, have
+            # None or the number of a file descriptor as name.
+            name = getattr(file_path, "name", None)
+            self.file_path = name if (isinstance(name, str) and name) else "<io>"
         self._line = 0
         self._column = 0
         self._cell = 0
